@@ -41,7 +41,7 @@ OPS = ['new', 'new', 'from_str', 'copy', 'deepcopy', 'pickle', 'freeze', 'thaw',
        'imatmul', 'rmatmul_tuple', 'to_angle', 'vec_to_angle', 'transform', 'from_basis', 'ang_from_basis', 'add', 'iadd', 'sub', 'neg', 'norm',
        'cross', 'localise', 'inverse', 'transpose', 'str', 'format', 'hash', 'from_angle', 'axis_mat', 'with_axes', 'rotate_by_str', 'round', 'abs',
        'aug', 'aug', 'binop', 'minmax', 'clamped', 'lerp', 'bbox', 'axis_angle', 'rotation_around', 'to_angle_roll', 'rotate', 'basis_vec', 'iter_tuple',
-       'ang_compare']
+       'ang_compare', 'derive_mutate_derive', 'derive_mutate_derive']
 AUG = ['+=', '-=', '*=', '/=', '//=', '%=', '@=']
 BIN = ['+', '-', '*', '/', '//', '%', 'r-', 'r/', 'r%', 'divmod']
 _COMP = re.compile(r'-?\d+(\.\d{1,6})?')
@@ -85,6 +85,8 @@ def gen(rng: Rng, tier: str, index: int) -> dict:
             st = [op, r.randrange(12), _val(r), _val(r), _val(r)]
         elif op == 'lerp':
             st = [op, r.randrange(12), r.randrange(12), r.pick([0.0, 0.5, 1.0, -1.0, 2.5])]
+        elif op == 'derive_mutate_derive':
+            st = [op, r.randrange(12), r.randrange(4), r.randrange(4), _val(r)]
         steps.append(st)
     return {'steps': steps}
 
@@ -225,7 +227,7 @@ def run(case: dict) -> Outcome:
                     else:
                         a[('pit', 'yaw', 'rol')[st[2]] if st[2] % 2 else st[2]] = st[3]
                 elif isinstance(a, Matrix) and op == 'setitem':
-                    pass
+                    a[st[2] % 3, (st[2] + 1) % 3] = max(-2.0, min(2.0, st[3]))
                 label = f'{op}:{_kind(a)}'
             elif op == 'imul':
                 a = get(st[1])
@@ -432,6 +434,39 @@ def run(case: dict) -> Outcome:
                     if (a == b) == (a != b):
                         out.violate('copy-unequal', 'eq-ne', f'{a!r} == {b!r} and != agree')
                 label = 'ang_compare'
+            elif op == 'derive_mutate_derive':
+                # a value derived from a mutable object, an in-place change, the same derivation again: the second result
+                # must describe the object as it is now (no stale memo)
+                a = get(st[1])
+                if isinstance(a, (Vec, Angle, Matrix)):
+                    def derive(x, k):
+                        if k == 0:
+                            return _comps(x.freeze())
+                        if k == 1:
+                            return _comps(x.copy())
+                        if k == 2:
+                            return str(x) if not isinstance(x, Matrix) else _comps(x.to_angle())
+                        return tuple(_comps(pickle.loads(pickle.dumps(x))))
+                    d1 = derive(a, st[2])
+                    v = max(-300.0, min(300.0, st[4]))
+                    if isinstance(a, Vec):
+                        [lambda: setattr(a, 'x', a.x + 1.5), lambda: a.__imul__(2.0), lambda: a.__setitem__(1, v), lambda: a.localise(Vec(1, 2, 3), Angle(0, 90, 0))][st[3]]()
+                    elif isinstance(a, Angle):
+                        [lambda: setattr(a, 'yaw', v), lambda: a.__setitem__(0, v), lambda: a.__imul__(2.0), lambda: setattr(a, 'roll', a.roll + 10)][st[3]]()
+                    else:
+                        if st[3] % 2:
+                            a[0, 1] = max(-2.0, min(2.0, v))
+                        else:
+                            a @= Matrix.from_yaw(v)
+                    d2 = derive(a, st[2])
+                    fresh = type(a)(a) if not isinstance(a, Matrix) else a.copy()
+                    want = derive(fresh, st[2]) if st[2] == 2 else tuple(_comps(a))
+                    if (d2 if st[2] == 2 else tuple(d2)) != want and all(c == c for c in _comps(a)):
+                        out.violate('copy-unequal', f'stale-after-mutation|{_kind(a)}|derive{st[2]}', f'{["freeze()", "copy()", "str()/to_angle()", "pickle"][st[2]]} of a {_kind(a)} after an in-place change still describes the old value: {d2!r}, object is {_comps(a)!r} (before the change it gave {d1!r})')
+                    for ent in pool:
+                        if ent[0] is a:
+                            ent[1] = 'derive_mutate_derive'
+                label = f'derive_mutate_derive:{_kind(a)}'
             elif op == 'rotate_by_str':
                 a, b = get(st[1]), get(st[2])
                 if isinstance(a, Vec) and isinstance(b, (Angle, FrozenAngle)):
